@@ -77,6 +77,12 @@ def gen_field(kind, lv, f, idx, centres, seed=0):
         for n, a in enumerate(idx):
             v = v + (n + 1.0) * (2.0 ** n) * a
         return np.broadcast_to(v, shape).copy()
+    if kind == 'zerofine':
+        if lv == 0:
+            return np.broadcast_to(coded(lv, f, idx, seed), shape).copy()
+        z = np.zeros(shape)
+        z[(idx[0] + idx[1]) % 2 == 1] = -0.0
+        return z
     if kind == 'one':
         return np.ones(shape)
     if kind == 'pos':
